@@ -20,7 +20,9 @@ FNS = ["t_arith", "t_shift", "t_shift32", "t_u8", "t_cast", "t_castbool", "t_div
        "h_recs", "h_list", "h_gen", "t_for_range", "t_for_list", "t_loop2", "t_iter_sum", "t_iter_misc", "t_scan",
        "t_index", "t_slice", "t_lastfirst", "t_set", "t_sip", "t_u128", "t_u128b", "t_try", "t_iflet",
        "t_matchstmt", "t_gen", "t_rev", "t_structlit", "h_iter", "t_incl", "h_bytes", "t_bytes",
-       "h_fee", "h_lock", "h_verify"]
+       "h_fee", "h_lock", "h_verify",
+       # phase 4
+       "t_ret_for", "t_ret_loop", "t_ret_while", "t_try_loop", "t_assert", "t_rangec"]
 METHODS = [("Nt", "low"), ("Nt", "opt"), ("Pt", "cap"), ("Pt", "off")]
 HELPERS = [("Dn", "from_num"), ("Dn", "to_num"), ("Rec", "mk"), ("Sip", "new"), ("Sip", "round"), ("Sip", "hash"),
            ("Sip", "digest"), ("Sip", "bump")]      # translated, exercised through the `t_*` functions
@@ -29,7 +31,8 @@ WL = [Entry(F, None, f, f, "FnsSelftest", {1: 70}) for f in FNS] + \
      [Entry(F, t, m, f"{t}_{m}", "FnsSelftest") for t, m in METHODS + HELPERS] + \
      [Entry(F, "Hp", "node", "Hp_node", "FnsSelftest"),
       Entry(F, "Hp", "ext", "Hp_ext", "FnsSelftest", abstract=[("self.outside().len()", "olen", "usize")]),
-      Entry(F, "Hp", "ext2", "Hp_ext2", "FnsSelftest")]      # inherits the abstracted parameter `olen`
+      Entry(F, "Hp", "ext2", "Hp_ext2", "FnsSelftest"),      # inherits the abstracted parameter `olen`
+      Entry(F, None, "t_rec", "t_rec", "FnsSelftest", rec_fuel=70)]      # phase 4: direct recursion, fuel 70
 # `t_result` is compared through a hand-written Lean wrapper (its struct literal has an untranslatable field)
 EXTRA_HELPERS = [("Hp", "node"), ("Hp", "ext"), ("Hp", "ext2")]
 EDGES = [0, 1, 2, 3, 5, 7, 8, 31, 32, 63, 64, 65, 127, 128, 200, 255, 256, 65535, 65536, 2**31 - 1, 2**31,
@@ -139,6 +142,8 @@ def main():
           '{ format!("({}, ({}, ({}, {})))", self.0.show(), self.1.show(), self.2.show(), self.3.show()) } }',
           'impl<A: Show> Show for Option<A> { fn show(&self) -> String { match self '
           '{ Some(x) => format!("(some {})", x.show()), None => "none".to_string() } } }',
+          'impl<A: Show> Show for Result<A, String> { fn show(&self) -> String { match self '
+          '{ Ok(x) => format!("(some {})", x.show()), Err(_) => "none".to_string() } } }',
           'impl<A: Show> Show for Vec<A> { fn show(&self) -> String '
           '{ format!("[{}]", self.iter().map(|x| x.show()).collect::<Vec<_>>().join(", ")) } }',
           'fn show<T: Show>(x: &T) -> String { x.show() }',
